@@ -51,6 +51,28 @@ type c18Spec struct {
 	Text string `json:"program,omitempty"`
 }
 
+// a format need not be valid UTF-8: it travels to the replay file as fw.Text
+func (s c18Spec) MarshalJSON() ([]byte, error) {
+	type plain c18Spec
+	return json.Marshal(struct {
+		plain
+		Fmt fw.Text `json:"fmt"`
+	}{plain(s), fw.Text(s.Fmt)})
+}
+
+func (s *c18Spec) UnmarshalJSON(b []byte) error {
+	type plain c18Spec
+	aux := struct {
+		*plain
+		Fmt fw.Text `json:"fmt"`
+	}{plain: (*plain)(s)}
+	if err := json.Unmarshal(b, &aux); err != nil {
+		return err
+	}
+	s.Fmt = string(aux.Fmt)
+	return nil
+}
+
 func c18Check(c *fw.Ctx, f string, ai int) *fw.Violation {
 	al := c18ArgLists[ai]
 	prog := `BEGIN { print "before"; printf("` + f + `"` + al.text + `); print "|after" }`
@@ -102,7 +124,7 @@ func c18Class(f string) string {
 func init() {
 	fw.Register(&fw.Prop{
 		ID: "C18",
-		Rule: "every format string of length <= L over the symbols % s f v d - 0 3 x, times 15 argument lists, plus a width sweep across the 65536 limit; format literals of 65 535 ... 131 080 bytes; 6 programs whose printf runs the same printf again inside a later argument, once per record; printf lists read, effect, read of one scalar location (the printf programs of C09's copy-time family); " +
+		Rule: "every format string of length <= L over the symbols % s f v d - 0 3 x, times 15 argument lists, plus a width sweep across the 65536 limit, width numerals beyond every integer type, bytes that are not ASCII where the directive letter belongs; format literals of 65 535 ... 131 080 bytes; 6 programs whose printf runs the same printf again inside a later argument, once per record; printf lists read, effect, read of one scalar location (the printf programs of C09's copy-time family); " +
 			"a state is a directive-shape class of a format (e.g. %-ws%0wv); non-trivial = classes the model formats successfully with at least one argument list; each case compares exact stdout and outcome with the reference formatter",
 		Plan: func(t fw.Tier) int { return 82 },
 		Bound: func(t fw.Tier) string {
@@ -344,6 +366,27 @@ func c18Sweep(c *fw.Ctx) {
 				}
 				ai := map[string]int{"s": 1, "f": 2, "v": 6}[code]
 				c.State(fmt.Sprintf("width:%s:%s:%d", z, code, sign(w)))
+				c.Do(func() any { return c18Spec{Fmt: f, Args: ai} }, func() *fw.Violation { return c18Check(c, f, ai) })
+			}
+		}
+	}
+	// width numerals no integer type holds (they must not wrap around into the allowed range), in every directive and sign
+	for _, w := range []string{"18446744073709551621", "18446744073709551616", "36893488147419103237", "4294967301", "9223372036854775813", "99999999999999999999", "340282366920938463463374607431768211461"} {
+		for _, code := range []string{"s", "f", "v"} {
+			for _, pre := range []string{"", "-", "0"} {
+				f := "[%" + pre + w + code + "]"
+				ai := map[string]int{"s": 1, "f": 2, "v": 6}[code]
+				c.State("width numeral beyond every integer type")
+				c.Do(func() any { return c18Spec{Fmt: f, Args: ai} }, func() *fw.Violation { return c18Check(c, f, ai) })
+			}
+		}
+	}
+	// a byte that is not ASCII where the directive letter belongs: unknown, whatever its low bits spell
+	for _, b := range []string{"\xf3", "\xe6", "\xf6", "\xa5", "\xe6\x97\xa5", "\xc3\xa9", "\x80", "\xff", "\xd3"} {
+		for _, f := range []string{"%" + b, "a%5" + b + "|", "%-3" + b, "12%" + b + " (%f)", "%s%" + b} {
+			for _, ai := range []int{1, 2, 3} {
+				f, ai := f, ai
+				c.State("non-ASCII byte as directive")
 				c.Do(func() any { return c18Spec{Fmt: f, Args: ai} }, func() *fw.Violation { return c18Check(c, f, ai) })
 			}
 		}
